@@ -3062,6 +3062,17 @@ func (x *SExec) doCtlResize(i int, op SOp) *Fail {
 		name = op.Name
 	}
 	arg := strconv.FormatInt(op.N*Blk, 10)
+	switch op.Reps {
+	case 3:
+		arg = fmt.Sprintf("%dk", op.N*Blk/1024)
+	case 4:
+		arg = fmt.Sprintf("%dkb", op.N*Blk/1024)
+	case 5:
+		arg = fmt.Sprintf("%dKiB", op.N*Blk/1024)
+	}
+	if op.Reps >= 3 {
+		x.Labels["ctlresize:size-with-unit"]++
+	}
 	if op.Str != "" {
 		arg = op.Str
 	}
